@@ -4,10 +4,20 @@
 EXTENDS Names, Json, Randomization
 CONSTANT NCollide, NMiss
 VARIABLE c
-Pairs(pos) == {p \in Names \X Names : Text(p[1]) # Text(p[2]) /\ SepOKAt(pos, p[1]) /\ SepOKAt(pos, p[2])}
-Colliding(pos) == {p \in Pairs(pos) : ExpectedCollision(p[1], p[2])}
-Missing(pos)   == {p \in Pairs(pos) : ~ExpectedCollision(p[1], p[2]) /\ Len(GoWords(p[1])) = Len(GoWords(p[2]))}
-Init == c \in UNION {{[pos |-> pos, a |-> p[1], b |-> p[2]] : p \in RandomSubset(NCollide, Colliding(pos)) \cup RandomSubset(NMiss, Missing(pos))} : pos \in Positions}
+\* names with the same word sequence as n (every case form and separator)
+Variants(n) ==
+  IF n.two THEN {m \in {[w1 |-> n.w1, f1 |-> f, two |-> TRUE, sep |-> sp, w2 |-> n.w2, f2 |-> g] : f \in Forms, sp \in Seps, g \in Forms} : NameOK(m)}
+           ELSE {[n EXCEPT !.f1 = f] : f \in Forms}
+\* names that differ from n in the last word only
+Neighbours(n) == IF n.two THEN {[n EXCEPT !.w2 = w] : w \in Words \ {n.w2}} ELSE {[n EXCEPT !.w1 = w] : w \in Words \ {n.w1}}
+OKAt(pos, a, b) == Text(a) # Text(b) /\ SepOKAt(pos, a) /\ SepOKAt(pos, b)
+Seeds == RandomSubset(NCollide, Names)
+CasesAt(pos) ==
+  LET col == {p \in UNION {{<<a, b>> : b \in Variants(a)} : a \in Seeds} : OKAt(pos, p[1], p[2])}
+      mis == {p \in UNION {{<<a, b>> : b \in Neighbours(a)} : a \in Seeds} : OKAt(pos, p[1], p[2])} IN
+  RandomSubset(IF NCollide < Cardinality(col) THEN NCollide ELSE Cardinality(col), col)
+  \cup RandomSubset(IF NMiss < Cardinality(mis) THEN NMiss ELSE Cardinality(mis), mis)
+Init == c \in UNION {{[pos |-> pos, a |-> p[1], b |-> p[2]] : p \in CasesAt(pos)} : pos \in Positions}
 Next == UNCHANGED c
 Emit == PrintT(<<"CASE", ToJson([pos |-> c.pos, a |-> Text(c.a), b |-> Text(c.b), expectCollision |-> ExpectedCollision(c.a, c.b)])>>)
 GInit == Init /\ LInit
